@@ -37,6 +37,12 @@ PROFILES = {
     "casing": {"src": ("sylvia-derive", "src", "types", "msg_variant.rs"), "out": "CasingFns.lean", "ns": "Extracted.CasingFns",
                "imports": ["Sylvia.Model.RustSem", "Sylvia.Model.Casing"], "opens": "open RustSem Casing", "vars": "", "str": "List Ch",
                "only": ["serde_snake_case"]},
+    # the instantiate builder of the runtime library (C10 / C12): a plain struct with setters and two build functions;
+    # cosmwasm_std's Binary / Coin are opaque type parameters, WasmMsg is declared in Sylvia/Model/RustExtern.lean
+    "builder": {"src": ("sylvia", "src", "builder", "instantiate.rs"), "out": "BuilderFns.lean", "ns": "Extracted.Builder",
+                "imports": ["Sylvia.Model.RustSem", "Sylvia.Model.RustExtern"], "opens": "open RustSem RustExtern",
+                "vars": "variable {Binary Coin : Type}", "str": "String", "only": None, "tparams": ["Binary", "Coin"],
+                "extern_types": {"WasmMsg": "WasmMsg Binary Coin"}, "extern_enums": {"WasmMsg": ["Instantiate", "Instantiate2"]}},
 }
 
 
@@ -171,8 +177,29 @@ class FnTr:
             return k("()")
         if t == "char":
             return k(ch_literal(e[1]))
+        if t == "field":
+            return self.ex(e[1], lambda b: k("%s.%s" % (b, e[2])))
+        if t == "vec":
+            return self.args(e[1], lambda vs: k("[%s]" % ", ".join(vs)))
+        if t == "struct":
+            path, fields, rest_ = e[1], e[2], e[3]
+            if rest_ is not None:
+                raise Unsupported("struct update syntax in a literal")
+            names = [f[0] for f in fields]
+
+            def kf(vs):
+                owner = self.fn.get("owner")
+                if path == ["Self"] and owner or (len(path) == 1 and path[0] in self.mod.structs):
+                    sname = owner if path == ["Self"] else path[0]
+                    return k("({ %s } : %s)" % (", ".join("%s := %s" % (n, v) for n, v in zip(names, vs)), self.mod.struct_ty(sname)))
+                if len(path) == 2 and path[1] in self.mod.profile.get("extern_enums", {}).get(path[0], []):
+                    return k("(%s.%s %s)" % (path[0], path[1], " ".join("(%s := %s)" % (n, v) for n, v in zip(names, vs))))
+                raise Unsupported("struct literal %s" % "::".join(path))
+            return self.args([f[1] for f in fields], kf)
         if t == "path":
             p = e[1]
+            if p == ["None"]:
+                return k("none")
             if len(p) == 1:
                 return k(p[0])
             if len(p) == 2 and p[0] in self.mod.enums:
@@ -207,6 +234,10 @@ class FnTr:
                 return self.ex(e[1], lambda r: k("%s.length" % r))
             if name == "is_empty" and not e[3]:
                 return self.ex(e[1], lambda r: k("%s.isEmpty" % r))
+            if name == "into" and not e[3]:
+                return self.ex(e[1], k)      # only for arguments typed `impl Into<String>` (see ModTr.ty)
+            if name == "unwrap_or_default" and not e[3]:
+                return self.ex(e[1], lambda r: k("(%s.getD default)" % r))
             if name == "is_uppercase" and not e[3]:
                 return self.ex(e[1], lambda r: k("(isUpper %s)" % r))
             if name == "to_ascii_lowercase" and not e[3]:
@@ -262,6 +293,8 @@ class FnTr:
         p = f[1]
         if p == ["String", "new"] and not argl:
             return k("[]")
+        if p == ["Some"] and len(argl) == 1:
+            return self.ex(argl[0], lambda v: k("(some %s)" % v))
         if p == ["konst", "cmp_str"]:
             self.mod.uses_cmp.add(self.name)
             return self.args(argl, lambda vs: k("(cmp_str %s %s)" % tuple(vs)))
@@ -337,6 +370,9 @@ class FnTr:
             if lhs[0] == "path" and len(lhs[1]) == 1:
                 x = lhs[1][0]
                 return self.ex(rhs, lambda v: ["let %s := %s" % (x, v)] + rest())
+            if lhs[0] == "field" and lhs[1][0] == "path" and len(lhs[1][1]) == 1:
+                x = lhs[1][1][0]
+                return self.ex(rhs, lambda v: ["let %s := { %s with %s := %s }" % (x, x, lhs[2], v)] + rest())
             if lhs[0] == "index" and lhs[1][0] == "path" and len(lhs[1][1]) == 1:
                 arr = lhs[1][1][0]
                 return self.ex(rhs, lambda v: self.ex(lhs[2], lambda i: ["(setIdx %s %s %s).bind fun %s =>" % (arr, i, v, arr)] + rest()))
@@ -550,15 +586,34 @@ class ModTr:
     def __init__(self, ast, profile=None):
         self.profile = profile or PROFILES["utils"]
         if self.profile.get("only"):
-            ast = dict(ast, fns=[f for f in ast["fns"] if f["name"] in self.profile["only"]], enums=[])
+            ast = dict(ast, fns=[f for f in ast["fns"] if f["name"] in self.profile["only"]], enums=[], structs=[], methods=[])
             missing = [n for n in self.profile["only"] if n not in [f["name"] for f in ast["fns"]]]
         else:
             missing = []
         self.missing = missing
+        self.structs = {st["name"]: st for st in ast.get("structs", [])}
         self.enums = {}
         for en in ast["enums"]:
             self.enums[en["name"]] = {}
         self.fns = {f["name"]: f for f in ast["fns"]}
+        self.method_notes = {}
+        for m in ast.get("methods", []):
+            if m["owner"] not in self.structs:
+                continue
+            if m["generics"]:
+                self.fns[m["owner"] + "." + m["name"]] = {"name": m["owner"] + "." + m["name"], "untranslatable": "generic method"}
+                continue
+            params = []
+            for pat, ty in m["params"]:
+                if pat[0] == "self":
+                    params.append([["pid", "self"], ["tpath", [m["owner"]]]])
+                else:
+                    params.append([pat, ty])
+            ret = ["tpath", [m["owner"]]] if m["ret"] == ["tpath", ["Self"]] else m["ret"]
+            name = m["owner"] + "." + m["name"]
+            self.fns[name] = {"name": name, "generics": [], "params": params, "ret": ret, "body": m["body"], "owner": m["owner"]}
+            if m["attrs"]:
+                self.method_notes[name] = m["attrs"]
         for en in ast["enums"]:
             self.enums[en["name"]] = {v[0]: [self.ty(t) for t in v[1]] for v in en["variants"]}
         self.enum_order = [en["name"] for en in ast["enums"]]
@@ -568,6 +623,9 @@ class ModTr:
         self.loop_owner = {}
         self.problems = ["function not found: " + n for n in missing]
 
+    def struct_ty(self, name):
+        return " ".join([name] + self.profile.get("tparams", []))
+
     def ty(self, t):
         k = t[0]
         if k == "ref":
@@ -576,6 +634,17 @@ class ModTr:
             return "List %s" % FnTr.paren_ty(self.ty(t[1]))
         if k == "tunit":
             return "Unit"
+        if k == "timpl":
+            if t[1] == "Into<String>":
+                return "String"      # `.into()` on such an argument is modelled as the identity
+            raise Unsupported("impl-trait type %s" % t[1])
+        if k == "tapp":
+            name = t[1][-1]
+            if name == "Option" and len(t[2]) == 1:
+                return "Option %s" % FnTr.paren_ty(self.ty(t[2][0]))
+            if name == "Vec" and len(t[2]) == 1:
+                return "List %s" % FnTr.paren_ty(self.ty(t[2][0]))
+            raise Unsupported("type constructor %s" % name)
         if k == "tpath":
             p = t[1]
             if p == ["usize"]:
@@ -586,6 +655,14 @@ class ModTr:
                 return self.profile["str"]
             if p == ["char"]:
                 return "Ch"
+            if p == ["u64"] or p == ["u32"] or p == ["u128"]:
+                return "Nat"
+            if len(p) == 1 and p[0] in self.profile.get("tparams", []):
+                return p[0]
+            if len(p) == 1 and p[0] in self.profile.get("extern_types", {}):
+                return self.profile["extern_types"][p[0]]
+            if len(p) == 1 and p[0] in getattr(self, "structs", {}):
+                return self.struct_ty(p[0])
             if len(p) == 1 and p[0] in self.enums:
                 return p[0]
         raise Unsupported("type %s" % json.dumps(t)[:80])
@@ -604,7 +681,7 @@ class ModTr:
                 for x in n:
                     walk(x, f)
         for name, f in self.fns.items():
-            walk(f["body"], name)
+            walk(f.get("body", []), name)
         self.raw_calls = calls
         out = set(direct)
         changed = True
@@ -626,7 +703,7 @@ class ModTr:
                 for x in n:
                     walk(x, f)
         for name, f in self.fns.items():
-            walk(f["body"], name)
+            walk(f.get("body", []), name)
         out = set(direct)
         changed = True
         while changed:
@@ -687,9 +764,18 @@ class ModTr:
             for v, fields in self.enums[en].items():
                 out.append("  | %s%s" % (v, "".join(" (a%d : %s)" % (i, t) for i, t in enumerate(fields))))
             out += ["deriving DecidableEq, Repr", ""]
+        for name, st in self.structs.items():
+            try:
+                tp = "".join(" (%s : Type)" % x for x in pr.get("tparams", []))
+                lines = ["structure %s%s where" % (name, tp)] + ["  %s : %s" % (f[0], self.ty(f[1])) for f in st["fields"]] + [""]
+                out += lines
+            except Unsupported as e:
+                self.problems.append("struct %s: unsupported: %s" % (name, e))
         out += ["section", pr["vars"], ""]
         for name in order:
             try:
+                if "untranslatable" in self.fns[name]:
+                    raise Unsupported(self.fns[name]["untranslatable"])
                 ft = FnTr(self, self.fns[name])
                 lines = ft.translate()
             except Unsupported as e:
@@ -702,6 +788,8 @@ class ModTr:
             for lp in ft.loops:
                 text += lp["lines"] + [""]
             binders = ("(fuel0 : Nat) " if name in self.fuel else "") + " ".join("(%s : %s)" % (v, ft.types[v]) for v in ft.generics + ft.params)
+            if name in self.method_notes:
+                text += ["/-- compiled under: %s -/" % ", ".join(self.method_notes[name])]
             text += ["def %s %s : Res %s :=" % (name, binders, FnTr.paren_ty(ft.ret))] + ind(lines) + [""]
             # loop functions that (transitively) use cmp_str take it as an explicit first argument outside their own body
             for l in text:
